@@ -410,7 +410,9 @@ func c04Oracle(c *Case, impl string) *Viol {
 
 // hand cases outside the subset the property quantifies over: ill-typed operands (string and/or, mixed-type
 // equality), an integer beyond 2^53, printing a list.
-var c04Outside = map[string]bool{"c04:print-list": true, "c04:mixed-equality": true, "c04:int-overflow-2^53": true, "c04:and-or-value": true, "c04:switch-mixed": true}
+// escapeUri / escapeJsString: "no directive whose encoding is documented to differ" — the repository's twin test
+// tables document both (soyhtml/exec_test.go escapeUri2 = a%25b+%3E+c, ejs5 = \'\' ; soyjs/exec_test.go = a%25b%20%3E%20c, \x27\x27).
+var c04Outside = map[string]bool{"c04:escapeUri": true, "c04:escapeJsString": true, "c04:print-list": true, "c04:mixed-equality": true, "c04:int-overflow-2^53": true, "c04:and-or-value": true, "c04:switch-mixed": true}
 
 type c04Hand struct {
 	key, src, data string
